@@ -340,6 +340,13 @@ theorem getId_eq_iff_ctx (g : DDNGraph) (i : Nat) (hok : ParentsOK g i) (k k' : 
 theorem coopIdx_lt (g : DDNGraph) (i : Nat) (hok : ParentsOK g i) (k : List Nat × List Nat) (hk : coopOK g k) :
     coopIdx g i k < g.getSize i := getId_lt_size g i k.1 k.2 hk.1 hk.2 hok
 
+theorem parentsOKB_iff (g : DDNGraph) (i : Nat) : parentsOKB g i = true ↔ ParentsOK g i := by
+  unfold parentsOKB ParentsOK
+  simp only [Bool.and_eq_true, List.all_eq_true, decide_eq_true_eq, beq_iff_eq]
+  constructor
+  · rintro ⟨⟨a, b⟩, c⟩; exact ⟨a, b, c⟩
+  · rintro ⟨a, b, c⟩; exact ⟨⟨a, b⟩, c⟩
+
 /-! ## §3 the cooperative classes -/
 
 /-- a call inside the documented preconditions: arguments inside their spaces; `sync(indeces)` receives what `record` returned -/
@@ -348,6 +355,24 @@ def FOp.WF (g : DDNGraph) : FOp → Prop
   | .syncSA s a => Valid g.S s ∧ Valid g.A a
   | .syncIdx ids s a => Valid g.S s ∧ Valid g.A a ∧ ids = coopIds g s a
   | _ => True
+
+/-- the driver's Boolean guard implies the hypothesis of the theorems (for `sync(indeces)` the driver passes the vector the
+    library returned and separately reports a `diff` when it is not `coopIds`) -/
+theorem FOp.validB_WF (g : DDNGraph) (op : FOp) (hv : op.validB g = true)
+    (hid : ∀ ids s a, op = .syncIdx ids s a → ids = coopIds g s a) : op.WF g := by
+  cases op with
+  | record s a s1 rews =>
+    simp only [FOp.validB, Bool.and_eq_true, validB_iff] at hv
+    exact ⟨hv.1.1, hv.1.2, hv.2⟩
+  | syncAll => trivial
+  | syncSA s a =>
+    simp only [FOp.validB, Bool.and_eq_true, validB_iff] at hv
+    exact ⟨hv.1, hv.2⟩
+  | syncIdx ids s a =>
+    simp only [FOp.validB, Bool.and_eq_true, validB_iff] at hv
+    exact ⟨hv.1, hv.2, hid ids s a rfl⟩
+  | reset => trivial
+  | ctor b => trivial
 
 theorem FOp.WF.toKOp {g : DDNGraph} {op : FOp} (h : op.WF g) (i : Nat) (hi : i < g.S.length) :
     (op.toKOp i).WF (coopIdx g i) (coopOK g) (g.S.getD i 0) := by
@@ -487,6 +512,74 @@ theorem coop_joint_probability (g : DDNGraph) (junk : Rat) (h : List FOp) (hwf :
     apply foldl_congr_range
     intro acc i hi
     rw [(key i hi).2]
+
+/-! ### the cooperative posterior-sampling model draws from the posterior of the CONTEXT's data -/
+
+/-- the experience part of the row of `k0` is `ExpOK` for the records of its context (no precondition of any kind) -/
+theorem keyed_pair_expOK {K C : Type} [DecidableEq C] (idx : K → Nat) (ctx : K → C) (ok : K → Prop)
+    (np w : Nat) (dflOf : Nat → Nat) (cfg : Cfg)
+    (hinj : ∀ k k', ok k → ok k' → (idx k = idx k' ↔ ctx k = ctx k')) (hlt : ∀ k, ok k → idx k < np)
+    (h : List (KOp K)) (hwf : ∀ op ∈ h, op.WF idx ok w) (k0 : K) (hk0 : ok k0) :
+    ∃ p, ((World.init np w dflOf).run cfg (h.map (KOp.toOp idx))).pairs[idx k0]? = some p ∧
+      ExpOK w p (recsOf ctx (ctx k0) h []) := by
+  refine ⟨_, world_pair_eq cfg np w dflOf _ (idx k0) (hlt k0 hk0), ?_⟩
+  rw [keyed_project_map idx ctx ok w hinj k0 hk0 h hwf]
+  have e : recsOf ctx (ctx k0) h [] = (Ghost.init.run (h.map (KOp.ctxProject ctx (ctx k0)))).recs :=
+    (recsOf_eq_ghost ctx (ctx k0) h Ghost.init).symm
+  rw [e]
+  exact ExpOK.run cfg w _ _ Ghost.init (by simpa [Ghost.init] using ExpOK.init w (dflOf (idx k0)) (idx k0))
+
+/-- **coop_thompson_posterior** — `CooperativeThompsonModel::syncRow(i, getId(i,s,a))` after ANY history of the experience: the
+    Dirichlet parameters are the next-value counts of the records with the context of `(s,a)` plus the Jeffreys prior 1/2; with
+    fewer than two such records the exposed reward is their empirical mean (0 on none), otherwise the Student-t posterior has
+    location = their mean, squared scale = Σ(r−mean)²/(n(n−1)) ≥ 0 with non-zero divisor, n−1 ≥ 1 degrees of freedom; and whatever
+    positive gamma draws the engine returns the exposed row is a probability distribution. -/
+theorem coop_thompson_posterior (g : DDNGraph) (cfg : Cfg) (h : List FOp) (hwf : ∀ op ∈ h, op.WF g)
+    (i : Nat) (hi : i < g.S.length) (hok : ParentsOK g i) (k0 : List Nat × List Nat) (hk0 : coopOK g k0) :
+    let p := ((CoopWorld.init g).run cfg g h).pair i (coopIdx g i k0)
+    let recs := recsOf (ctxOf g i) (ctxOf g i k0) (h.map (FOp.toKOp i)) []
+    let w := g.S.getD i 0
+    (dirichletParams p.cnt).length = w ∧
+    (∀ k, k < w → nthQ (dirichletParams p.cnt) k = (countS1 k recs : Rat) + 1 / 2) ∧
+    (recs.length < 2 → thompsonPost p.cell = none ∧ ∀ gs t sd, (p.thompsonSync gs t sd).rew = meanOf recs) ∧
+    (2 ≤ recs.length → thompsonPost p.cell = some ⟨meanOf recs,
+        sqDevOf recs / (((recs.length * (recs.length - 1) : Nat)) : Rat), recs.length - 1⟩ ∧
+      (0 : Rat) < ((recs.length * (recs.length - 1) : Nat) : Rat) ∧
+      0 ≤ sqDevOf recs / (((recs.length * (recs.length - 1) : Nat)) : Rat) ∧ 1 ≤ recs.length - 1) ∧
+    (∀ gs : List Rat, gs ≠ [] → (∀ x ∈ gs, 0 < x) → ∀ t sd,
+      (∀ y ∈ (p.thompsonSync gs t sd).row, 0 < y) ∧ sumQ (p.thompsonSync gs t sd).row = 1) := by
+  intro p recs w
+  have hk : ∀ op ∈ h.map (FOp.toKOp i), op.WF (coopIdx g i) (coopOK g) w := by
+    intro op hop
+    obtain ⟨fop, hf, rfl⟩ := List.mem_map.mp hop
+    exact (hwf fop hf).toKOp i hi
+  obtain ⟨q, hq, he⟩ := keyed_pair_expOK (coopIdx g i) (ctxOf g i) (coopOK g) (g.getSize i) w (fun _ => 0) cfg
+    (fun k k' a b => getId_eq_iff_ctx g i hok k k' a b) (fun k a => coopIdx_lt g i hok k a) (h.map (FOp.toKOp i)) hk k0 hk0
+  have hpq : p = q := by
+    show ((CoopWorld.init g).run cfg g h).pair i (coopIdx g i k0) = q
+    have htab : ((CoopWorld.init g).run cfg g h).tables[i]? = some ((World.init (g.getSize i) w (fun _ => 0)).run cfg
+        ((h.map (FOp.toKOp i)).map (KOp.toOp (coopIdx g i)))) := by
+      rw [CoopWorld.run_tables]
+      simp [CoopWorld.init, List.getElem?_map, List.getElem?_range hi, List.map_map, Function.comp_def, w]
+    simp only [CoopWorld.pair, List.getD_eq_getElem?_getD, htab, Option.getD_some]
+    rw [hq]; rfl
+  rw [hpq]
+  refine ⟨by simp [dirichletParams, he.len], fun k hkw => ?_, fun h2 => ?_, fun h2 => ?_, fun gs hne hp t sd => ?_⟩
+  · have : ∀ (l : List Nat) (j : Nat), j < l.length → nthQ (dirichletParams l) j = (nthN l j : Rat) + 1 / 2 := by
+      intro l
+      induction l with
+      | nil => intro j hj; simp at hj
+      | cons x xs ih =>
+        intro j hj
+        cases j with
+        | zero => simp [dirichletParams, nthQ, nthN]
+        | succ j => simpa [dirichletParams, nthQ, nthN] using ih j (by simpa using hj)
+    rw [this q.cnt k (by rw [he.len]; exact hkw), he.cnt k hkw]
+  · exact ⟨(thompson_post_none w q recs he h2 [] 0 0).1, fun gs t sd => (thompson_post_none w q recs he h2 gs t sd).2⟩
+  · obtain ⟨a, b, c, d, _⟩ := thompson_post_documented w q recs he h2
+    exact ⟨a, b, c, d⟩
+  · obtain ⟨a, b, _⟩ := thompson_sync_valid w q recs he gs hne hp t sd
+    exact ⟨a, b⟩
 
 /-! ### satisfiability: a DDN with a two-agent parent set, non-uniform sizes with `S[k] ≠ A[k]`, non-prefix parent features -/
 
